@@ -26,6 +26,9 @@ type RdbReplay struct {
 	KeyExists       string
 	KeyExistsLog    bool
 	ReplaceHashTag  bool
+
+	ignoredKey []byte // key of the split value whose first part was ignored because the key exists
+	ignoring   bool
 }
 
 func (rr *RdbReplay) Replay(e *rdb.BinEntry) (err error) {
@@ -60,7 +63,11 @@ func (rr *RdbReplay) Replay(e *rdb.BinEntry) (err error) {
 		if ot == rdb.RdbObjectModule {
 			return fmt.Errorf("rdb module object requires RESTORE replay for key %s", e.Key)
 		}
+		if !e.FirstBin() && rr.ignoring && bytes.Equal(rr.ignoredKey, e.Key) {
+			return nil // the first part of this value was ignored, so are the others
+		}
 		if e.FirstBin() {
+			rr.ignoring = false
 			exist, err := common.Bool(rr.Client.Do("exists", e.Key))
 			if err != nil {
 				return err
@@ -79,6 +86,10 @@ func (rr *RdbReplay) Replay(e *rdb.BinEntry) (err error) {
 					if rr.KeyExistsLog {
 						log.Warnf("output key exist, ignore it : %s", e.Key)
 					}
+					// keep the existing key as it is : nothing of the snapshot's value may be merged into it
+					rr.ignoredKey = append(rr.ignoredKey[:0], e.Key...)
+					rr.ignoring = true
+					return nil
 				case "error":
 					return fmt.Errorf("output key exist : %s", e.Key)
 				}
